@@ -1,4 +1,6 @@
 import XzVerif.Proofs.XzSound
+import XzVerif.Proofs.LazyXz
+import XzVerif.Proofs.Fuel
 /-
   C04 — A damaged .xz stream never decodes "successfully" to different content.
 
@@ -69,5 +71,26 @@ theorem C04_clean_means_verified_and_consumed (strict : Bool) (cap : Nat) (singl
     (h : (read strict cap single inp).status = .eof) :
     (read strict cap single inp).streams.size ≥ 1 ∧ (read strict cap single inp).pos ≥ inp.size :=
   ⟨clean_needs_stream strict cap single inp h, read_clean_consumes_all strict cap single inp h⟩
+
+/-! ### at the level the code runs: a clean end of the lazy xz reader is a clean end of the batch reader
+
+  `Model/LazyXz.lean` is reader.go as it runs (tied per call to the real `xz.Reader`, also on structural mutants with
+  re-sealed checksums).  Whatever the input and the schedule of buffer lengths: if the lazy reader ever reports
+  `io.EOF`, the batch reader ends cleanly on the same input and the delivered bytes are exactly its output — so every
+  verification theorem above (block checks, header, tail, "clean means verified and consumed") applies to what the lazy
+  reader accepted. -/
+
+open LazyDec LazyXz in
+theorem C04_lazy_clean_end_is_verified (cfgCap : Nat) (single : Bool) (inp : ByteArray) (x : X)
+    (h : LazyXz.newReader cfgCap single inp = .ok x) (lens : List Nat)
+    (he : LazyXz.lastStat (LazyXz.readSeq x lens) = .eof) :
+    (Xz.read false cfgCap single inp).status = .eof ∧
+    delivered (LazyXz.readSeq x lens) = (Xz.read false cfgCap single inp).out ∧
+    (Xz.read false cfgCap single inp).pos ≥ inp.size ∧ (Xz.read false cfgCap single inp).streams.size ≥ 1 := by
+  have hf : (LazyXz.batch cfgCap single inp).status ≠ .err "fuel exhausted" := Fuel.xz_read_fuel _ _ _ _
+  obtain ⟨h1, h2⟩ := LazyXz.eof_complete cfgCap single inp x h lens hf he
+  have hb : LazyXz.batch cfgCap single inp = Xz.read false cfgCap single inp := rfl
+  rw [hb] at h1 h2
+  exact ⟨h1, h2, Xz.read_clean_consumes_all false cfgCap single inp h1, Xz.clean_needs_stream false cfgCap single inp h1⟩
 
 end Props.C04
